@@ -268,7 +268,7 @@ fn spec_free(c: Cell, x: &RowCtx) -> Option<&'static str> {
             // depth: b0' - b0 + f_shl * f_ov - f_shr = 0 (stack/main.md); CALL / SYSCALL / END of a call
             // reset / restore the depth through the block stack table (decoder/main.md)
             match op_name(op) {
-                "CALL" | "SYSCALL" | "DYN" => Some("depth is reset to 16 at a context switch via the block stack table"),
+                // CALL / SYSCALL set the depth to 16 (programs.md, "Sets the depth of the stack to 16"): determined
                 "END" if x.cur[22].as_int() == 1 || x.cur[23].as_int() == 1 => Some("depth is restored at the end of a call via the block stack table"),
                 _ => None,
             }
